@@ -12,21 +12,20 @@ from common import VERIF
 IMPORTS = "From Verif Require Import model.Base model.Tuner.\nOpen Scope Q_scope.\n"
 
 PRELUDE = r"""
-(* first component: start_jobs_without_delay (true: run, false: run_b) *)
-Definition run_case := (bool * params * oracles * nat * list event * outcome * list (nat * status) * list status)%type.
+Definition run_case := (params * oracles * nat * list event * outcome * list (nat * status) * list status)%type.
 Definition smap_eqb (a b : list (nat * status)) : bool :=
   list_eqb (fun x y => Nat.eqb (fst x) (fst y) && status_eqb (snd x) (snd y)) a b.
 Definition chk_run (c : run_case) : bool :=
-  let '(sjwd, prm, o, fuel, itrace, iout, ismap, iw) := c in
-  let '(st, out) := if sjwd then run prm o fuel else run_b prm o fuel in
+  let '(prm, o, fuel, itrace, iout, ismap, iw) := c in
+  let '(st, out) := run prm o fuel in
   list_eqb event_eqb (rev (s_trace st)) itrace
   && list_eqb Z.eqb (outcome_code out) (outcome_code iout)
   && smap_eqb (s_smap st) ismap
   && list_eqb status_eqb (map (fun t => b_w (s_bt st t)) (seq 0 (s_ntrials st))) iw.
 (* diagnostics: (first differing trace index, model event there, model outcome, model status map equal?, workers equal?) *)
 Definition diag_run (c : run_case) :=
-  let '(sjwd, prm, o, fuel, itrace, iout, ismap, iw) := c in
-  let '(st, out) := if sjwd then run prm o fuel else run_b prm o fuel in
+  let '(prm, o, fuel, itrace, iout, ismap, iw) := c in
+  let '(st, out) := run prm o fuel in
   let mt := rev (s_trace st) in
   let d := first_diff mt itrace 0 in
   (d, match d with Some i => nth_error mt i | None => None end, out, smap_eqb (s_smap st) ismap,
@@ -144,8 +143,8 @@ def replayable(case, out):
 
 def coq_case(case, out):
     T = scripted.coq_terms()
-    return "((%s, %s,\n  %s,\n  %s, %s,\n  %s, %s, %s) : run_case)" % (
-        "true" if case["params"].get("sjwd", True) else "false", T["params"](case["params"]), T["oracles"](out["record"]), "%d%%nat" % (out["iterations"] + 2),
+    return "((%s,\n  %s,\n  %s, %s,\n  %s, %s, %s) : run_case)" % (
+        T["params"](case["params"]), T["oracles"](out["record"]), "%d%%nat" % (out["iterations"] + 2),
         T["trace"](out["trace"]), T["outcome"](out["outcome"]), T["smap"](out["smap"]), T["statuses"](out["workers"]))
 
 
